@@ -65,6 +65,7 @@ func calleeKeyOf(c *ssa.CallCommon) string {
 }
 
 func (e *Engine) execCall(s *State, f *Frame, x *ssa.Call, work *[]*State, probe *probeRec) bool {
+	e.curWork = work
 	c := x.Common()
 	var args []Value
 	for _, a := range c.Args {
@@ -101,7 +102,50 @@ func (e *Engine) execCall(s *State, f *Frame, x *ssa.Call, work *[]*State, probe
 
 func (e *Engine) callFunction(s *State, f *Frame, x *ssa.Call, callee *ssa.Function, args []Value, free []Value, probe *probeRec) bool {
 	name := callee.String()
+	e.alt = nil
 	if res, ok := e.externalModel(s, f, x, name, callee, args, probe); ok {
+		if alt := e.alt; alt != nil {
+			e.alt = nil
+			switch {
+			case alt.cond.IsFalse():
+				res = alt.val
+			case alt.cond.IsTrue():
+				for _, fc := range alt.facts {
+					s.assume(fc)
+				}
+			default:
+				if e.curWork == nil {
+					panic(execError{"two-outcome model outside a path"})
+				}
+				// prune an outcome the path condition excludes (string goals are decided in milliseconds)
+				if e.pruneCalls < 20000 {
+					e.pruneCalls++
+					fm, fa := e.quickSides(s.pc, alt.cond)
+					if !fm {
+						s.assume(Not(alt.cond))
+						res = alt.val
+						break
+					}
+					if !fa {
+						s.assume(alt.cond)
+						for _, fc := range alt.facts {
+							s.assume(fc)
+						}
+						break
+					}
+				}
+				other := s.clone()
+				of := other.top()
+				of.env[x] = alt.val
+				of.ip++
+				other.assume(Not(alt.cond))
+				*e.curWork = append(*e.curWork, other)
+				s.assume(alt.cond)
+				for _, fc := range alt.facts {
+					s.assume(fc)
+				}
+			}
+		}
 		f.env[x] = res
 		f.ip++
 		return true
@@ -143,6 +187,9 @@ func (e *Engine) callFunction(s *State, f *Frame, x *ssa.Call, callee *ssa.Funct
 		e.inlined[funcKey(callee)] = true
 		nf := e.newFrame(callee, args, free)
 		nf.call = x
+		if ct := e.bound[callee]; ct != nil && ct.Flags["inline-at-calls"] {
+			nf.contract = ct // inlined, but its loops are cut at the invariants of its own contract
+		}
 		s.stack = append(s.stack, nf)
 		return true
 	}
@@ -243,8 +290,8 @@ func (e *Engine) applyContract(s *State, f *Frame, x ssa.Instruction, callee *ss
 	}
 	if probe == nil && !acceptance {
 		for k, cl := range ct.Requires {
-			if !e.clauseApplies(cl) {
-				continue
+			if !e.clauseApplies(cl) || ct.mentionsLogical(cl.Expr) {
+				continue // clauses over logical variables select a specification case; they bind no caller
 			}
 			t := c.evalBool(cl.Expr)
 			e.emit(s, "pre", fmt.Sprintf("%s.req%d", site, k), t, x.Pos(), cl.Src)
@@ -257,7 +304,7 @@ func (e *Engine) applyContract(s *State, f *Frame, x ssa.Instruction, callee *ss
 		}
 	} else if !acceptance {
 		for _, cl := range ct.Requires {
-			if e.clauseApplies(cl) {
+			if e.clauseApplies(cl) && !ct.mentionsLogical(cl.Expr) {
 				s.assume(c.evalBool(cl.Expr))
 			}
 		}
@@ -306,7 +353,7 @@ func (e *Engine) applyContract(s *State, f *Frame, x ssa.Instruction, callee *ss
 	c.oldEnv = nil
 	before := len(s.pc)
 	for _, cl := range ct.Ensures {
-		if !e.clauseApplies(cl) || cl.Tag == "local" {
+		if !e.clauseApplies(cl) || cl.Tag == "local" || ct.mentionsLogical(cl.Expr) {
 			continue // `ensures[local]`: proved for the function itself, not exported to callers
 		}
 		s.assume(c.evalBool(cl.Expr))
@@ -356,26 +403,51 @@ func (e *Engine) verifyFunction(fn *ssa.Function, ct *Contract, mode Mode) error
 	if len(ct.Cases) == 0 {
 		return e.verifyFunctionCase(fn, ct, mode, nil)
 	}
-	cs := ct.Cases[0]
-	// exhaustiveness: requires => lo <= p < hi
-	if err := e.verifyFunctionCase(fn, ct, mode, &caseSel{cs: cs, exhaustive: true}); err != nil {
-		return err
-	}
-	for v := cs.Lo; v < cs.Hi; v++ {
-		if err := e.verifyFunctionCase(fn, ct, mode, &caseSel{cs: cs, val: v}); err != nil {
+	// exhaustiveness of every split: requires => lo <= p < hi
+	for _, cs := range ct.Cases {
+		if err := e.verifyFunctionCase(fn, ct, mode, []caseSel{{cs: cs, exhaustive: true}}); err != nil {
 			return err
 		}
 	}
-	return nil
+	// the product of all splits
+	var rec func(i int, sel []caseSel) error
+	rec = func(i int, sel []caseSel) error {
+		if i == len(ct.Cases) {
+			return e.verifyFunctionCase(fn, ct, mode, append([]caseSel(nil), sel...))
+		}
+		cs := ct.Cases[i]
+		var vals []int
+		if len(cs.Quick) > 0 && e.tier != "thorough" {
+			vals = cs.Quick
+		} else {
+			for v := cs.Lo; v < cs.Hi; v++ {
+				vals = append(vals, v)
+			}
+		}
+		if only := os.Getenv("GOVC_CASE_" + cs.Param); only != "" {
+			// development aid: explore a single case value
+			var ov int
+			fmt.Sscan(only, &ov)
+			vals = []int{ov}
+		}
+		for k, v := range vals {
+			if err := rec(i+1, append(sel, caseSel{cs: cs, val: v, first: k == 0})); err != nil {
+				return err
+			}
+		}
+		return nil
+	}
+	return rec(0, nil)
 }
 
 type caseSel struct {
 	cs         caseSplit
 	val        int
 	exhaustive bool
+	first      bool
 }
 
-func (e *Engine) verifyFunctionCase(fn *ssa.Function, ct *Contract, mode Mode, sel *caseSel) (err error) {
+func (e *Engine) verifyFunctionCase(fn *ssa.Function, ct *Contract, mode Mode, sels []caseSel) (err error) {
 	e.seqArrays = map[string][]*Term{}
 	e.mode = mode
 	e.curFn = fn
@@ -398,7 +470,30 @@ func (e *Engine) verifyFunctionCase(fn *ssa.Function, ct *Contract, mode Mode, s
 	for _, fc := range a.facts {
 		s.assume(fc)
 	}
-	if sel != nil {
+	logicals := map[string]Value{}
+	for _, lg := range ct.Logicals {
+		switch lg.Kind {
+		case "string":
+			logicals[lg.Name] = VStr{Var("logical."+lg.Name, SStr)}
+		default:
+			logicals[lg.Name] = VInt{Var("logical."+lg.Name, SInt)}
+		}
+	}
+	exhaustive := len(sels) == 1 && sels[0].exhaustive
+	caseTag := ""
+	allFirst := true
+	for _, sel := range sels {
+		if sel.exhaustive {
+			continue
+		}
+		if !sel.first {
+			allFirst = false
+		}
+		caseTag += fmt.Sprintf("[%s=%d]", sel.cs.Param, sel.val)
+		if _, ok := logicals[sel.cs.Param]; ok {
+			logicals[sel.cs.Param] = VInt{Int64C(int64(sel.val))}
+			continue
+		}
 		idx := -1
 		for i, p := range fn.Params {
 			if p.Name() == sel.cs.Param {
@@ -408,9 +503,7 @@ func (e *Engine) verifyFunctionCase(fn *ssa.Function, ct *Contract, mode Mode, s
 		if idx < 0 {
 			return fmt.Errorf("%s: cases: no parameter %s", funcKey(fn), sel.cs.Param)
 		}
-		if !sel.exhaustive {
-			args[idx] = VInt{Int64C(int64(sel.val))}
-		}
+		args[idx] = VInt{Int64C(int64(sel.val))}
 	}
 	e.leafClass = nil
 	if ct.Flags["root"] && fn.Signature.Recv() != nil {
@@ -436,6 +529,9 @@ func (e *Engine) verifyFunctionCase(fn *ssa.Function, ct *Contract, mode Mode, s
 	}
 	e.curArgs = args
 	fr := e.newFrame(fn, args, nil)
+	for k, v := range logicals {
+		fr.params[k] = v
+	}
 	fr.contract = ct
 	fr.entryHeap = make(map[*Object]interface{}, len(s.heap))
 	for k, v := range s.heap {
@@ -487,16 +583,24 @@ func (e *Engine) verifyFunctionCase(fn *ssa.Function, ct *Contract, mode Mode, s
 		}
 		c.env = copyEnv(fr.params)
 	}
-	if sel != nil && sel.exhaustive {
+	if exhaustive {
+		sel := sels[0]
 		p := asInt(fr.params[sel.cs.Param])
 		e.emit(s, "cases-exhaustive", sel.cs.Param, And(Le(Int64C(int64(sel.cs.Lo)), p), Lt(p, Int64C(int64(sel.cs.Hi)))), fn.Pos(), fmt.Sprintf("precondition implies %d <= %s < %d", sel.cs.Lo, sel.cs.Param, sel.cs.Hi))
 		return nil
 	}
-	// vacuity guard: the precondition must be satisfiable
-	e.noCover = sel != nil && sel.val != sel.cs.Lo
+	// vacuity guard: the precondition must be satisfiable (with `flag cover-each-case`: in every case)
+	e.noCover = len(sels) > 0 && !allFirst && !ct.Flags["cover-each-case"]
 	if !e.noCover {
-		cov := &Oblig{Name: fmt.Sprintf("%s/%s/cover@pre", funcKey(fn), mode), Func: funcKey(fn), Mode: mode, Kind: "cover", Hyps: append([]*Term(nil), s.pc...), Goal: nil, Expect: "sat", Props: ct.Props, Src: "precondition satisfiable"}
+		tag := ""
+		if ct.Flags["cover-each-case"] {
+			tag = caseTag
+		}
+		cov := &Oblig{Name: fmt.Sprintf("%s/%s/cover@pre%s", funcKey(fn), mode, tag), Func: funcKey(fn), Mode: mode, Kind: "cover", Hyps: append([]*Term(nil), s.pc...), Goal: nil, Expect: "sat", Props: ct.Props, Src: "precondition satisfiable"}
 		e.obligs = append(e.obligs, cov)
+	}
+	if ct.Flags["cover-each-case"] {
+		e.noCover = true // only the precondition is covered per case; a case may legitimately never return
 	}
 	e.run(s, nil)
 	return nil
@@ -762,6 +866,27 @@ func (e *Engine) builtin(s *State, f *Frame, x *ssa.Call, name string, args []Va
 				e.store(s, p, v, x.Pos())
 			}
 			return VInt{Int64C(n)}
+		}
+		if dst.Len.IsConst() && dst.Obj != nil && dst.Len.Val.Int64() <= 64 {
+			// concrete destination, symbolic source length: element i is overwritten iff i < len(src)
+			n := dst.Len.Val.Int64()
+			for i := int64(0); i < n; i++ {
+				p := VPtr{Obj: dst.Obj, Path: []PathElem{{Field: -1, Index: Add(dst.Off, Int64C(i))}}}
+				oldv := e.load(s, p, x.Pos())
+				inRange := Lt(Int64C(i), src.Len)
+				var nv Value
+				switch {
+				case inRange.IsTrue():
+					nv = e.sliceAt(s, src, Int64C(i))
+				case inRange.IsFalse():
+					nv = oldv
+				default:
+					nv = mergeValues(inRange, e.sliceAt(s, src, Int64C(i)), oldv)
+				}
+				e.recordWrite(s, probe, p)
+				e.store(s, p, nv, x.Pos())
+			}
+			return VInt{Ite(Le(src.Len, Int64C(n)), src.Len, Int64C(n))}
 		}
 		panic(execError{"copy with symbolic lengths unsupported"})
 	case "print", "println":
